@@ -1,4 +1,5 @@
 import PoolProofs.C20Lemmas
+import PoolProofs.C08I2Lemmas
 /-!
 # C20 — recovery restores a spendable account and never moves funds
 
@@ -121,6 +122,20 @@ theorem C20_unknown_funding_cancelled (k : Nat) (a : Acct) (known : List Tx)
   simp only [step]
   exact resume_cancel _ { a with secret := (AState.init k).signerSecret } hst
     (by simpa [write, AState.init, Acct.out, Acct.script] using hloc)
+
+/-- **C20 / resumes watching**: whenever `RecoverAccount` succeeds, the recovered account is watched for
+the event its state waits for (confirmation of the located funding / reported transaction, spend of an
+expired account) – C08's I2 – starting from whatever registry there was. -/
+theorem C20_resumes_watching (s : AState) (a : Acct) (known : List Tx) (hrep : reportable a.state = true)
+    (hok : (step s (.recover a known)).2 = .ok) : Inv2 (step s (.recover a known)).1 := by
+  simp only [step] at hok ⊢
+  apply resume_inv2 _ _ _ _ _ _ _ hok
+  intro hne
+  show some (Acct.stored _) = _
+  rw [stored_of_live hne]
+  intro hc
+  have : a.state = .canceled := hc
+  rw [this] at hrep; simp [reportable] at hrep
 
 /-! ## the key sweep -/
 
